@@ -312,7 +312,7 @@ RunPass(fl, m, run, seq, i, final) == IF i > Len(seq) THEN run
 RECURSIVE RunPasses(_, _, _, _, _)
 RunPasses(fl, m, run, seq, p) == IF p > m.maxpass THEN run
                                  ELSE RunPasses(fl, m, RunPass(fl, m, run, seq, 1, p = m.maxpass), seq, p + 1)
-RunAll(fl, m, fs0, seq) == Finish(fl, RunPasses(fl, m, [fs |-> fs0, req |-> {}, st |-> "run"], seq, 1))
+RunAll(fl, m, r0, seq) == Finish(fl, RunPasses(fl, m, r0, seq, 1))
 
 -----------------------------------------------------------------------------
 (* ---- mutate.Extract (go-containerregistry): what UnpackSquashed feeds to unpack() ---- *)
@@ -335,22 +335,28 @@ RECURSIVE Concat(_)
 Concat(ls) == IF ls = <<>> THEN <<>> ELSE Head(ls) \o Concat(Tail(ls))
 Reverse(s) == [i \in 1..Len(s) |-> s[Len(s) + 1 - i]]
 Flatten(layers) == FlattenAcc(Concat(Reverse(layers)), {}, {}, <<>>)
+\* mutate.Extract re-encodes every header with the cleaned name; archive/tar refuses a regular file called "/"
+\* ("filename may not have trailing slash"): SaveToTarball fails and UnpackSquashed returns before unpacking
+FlattenFails(out) == \E i \in 1..Len(out) : out[i].t = "reg" /\ out[i].n = A(<<"">>)
 
 -----------------------------------------------------------------------------
 (* ---- the image loader: FromV1Image / FromTarball, then CleanUp ---- *)
 \* ifs: the on-disk content of the extraction directory X (paths start with "layer-<i>"); keys: the
-\* virtual paths already present in the chain layer being filled ("/" + cleaned name; an absolute
-\* name gives "//..." which the path tree keeps apart from "/...").
-ImgKey(cn) == [dbl |-> cn.abs, segs |-> cn.segs]
-ParentKeys(cn) == {[dbl |-> FALSE, segs |-> SubSeq(cn.segs, 1, i)] : i \in 0..(Len(cn.segs) - 1)}
+\* virtual paths already present in the chain layer being filled.  A leading "/" of the cleaned name is
+\* dropped (entry names are relative to the image root), so "/a" and "a" are the same entry.
+ImgKey(cn) == cn.segs
+ParentKeys(cn) == {SubSeq(cn.segs, 1, i) : i \in 0..(Len(cn.segs) - 1)}
+\* fillChainLayersWithFileNode drops a node that lies below a non-directory of the same chain layer (inWhiteoutDir)
+Insertable(nondir, k) == \A i \in 0..(Len(k) - 1) : SubSeq(k, 1, i) \notin nondir
 ImgStep(st, ld, e) ==
   IF st.st # "run" THEN st
   ELSE LET cn == Clean(e.n)
            real == <<ld>> \o cn.segs
-           done == [st EXCEPT !.keys = @ \cup {ImgKey(cn)} \cup ParentKeys(cn)]
+           done == [st EXCEPT !.keys = @ \cup {k \in {ImgKey(cn)} \cup ParentKeys(cn) : Insertable(st.nondir, k)},
+                              !.nondir = IF e.t # "dir" /\ Insertable(st.nondir, ImgKey(cn)) THEN @ \cup {ImgKey(cn)} ELSE @]
        IN
-    IF cn.ups > 0 /\ cn.segs # <<>> THEN st                                   \* ZipSlipFilter: "../" prefix
-    ELSE IF ~cn.abs /\ cn.segs = <<>> THEN st                                 \* base name "." or ".."
+    IF cn.ups > 0 THEN st                                                     \* ZipSlipFilter: "../" prefix (".." itself: base name "..")
+    ELSE IF cn.segs = <<>> THEN st                                            \* "." and "/" (base name ".")
     ELSE IF ImgKey(cn) \in st.keys THEN st                                    \* already in this chain layer
     ELSE IF e.t = "dir" THEN                                                  \* handleDir
       IF Stat(st.fs, real).st = "ok" THEN done
@@ -396,7 +402,8 @@ M == [ignore |-> mode \in {"tb-ignore-log", "tb-ignore-ret"},
 Layers == IF cut = Len(entries) THEN <<entries>> ELSE <<SubSeq(entries, 1, cut), SubSeq(entries, cut + 1, Len(entries))>>
 FS0 == InitFS(sib)
 Run0 == [fs |-> FS0, req |-> {}, st |-> "run"]
-Img0 == [fs |-> [p \in {<<>>} |-> Dir], keys |-> {[dbl |-> FALSE, segs |-> <<>>]}, st |-> "run"]
+StartRun == IF ~IsImg /\ ~IsTb /\ FlattenFails(seq) THEN [Run0 EXCEPT !.st = "abort"] ELSE Run0
+Img0 == [fs |-> [p \in {<<>>} |-> Dir], keys |-> {<<>>}, nondir |-> {}, st |-> "run"]
 
 Init == /\ phase = "build" /\ entries = <<>> /\ cut = 0 /\ seq = <<>> /\ pass = 0 /\ idx = 0
         /\ mode \in Modes /\ sib \in Sibs /\ reqr \in Reqs /\ maxpass \in MaxPasses
@@ -414,8 +421,10 @@ Start(k) == /\ phase = "build" /\ entries # <<>>
             /\ LET ls == IF k = Len(entries) THEN <<entries>> ELSE <<SubSeq(entries, 1, k), SubSeq(entries, k + 1, Len(entries))>> IN
                /\ seq' = IF IsImg THEN <<>> ELSE IF IsTb THEN entries ELSE Flatten(ls)
                /\ pass' = IF IsImg THEN Len(ls) ELSE 1
+               /\ LET r0 == IF ~IsImg /\ ~IsTb /\ FlattenFails(Flatten(ls)) THEN [Run0 EXCEPT !.st = "abort"] ELSE Run0
+                  IN ideal' = r0 /\ asb' = r0
             /\ idx' = 1 /\ phase' = "run"
-            /\ UNCHANGED <<entries, mode, sib, reqr, maxpass, ideal, asb, img>>
+            /\ UNCHANGED <<entries, mode, sib, reqr, maxpass, img>>
 
 \* one tar entry of one pass, both transcriptions (NextPass when the stream is exhausted)
 StepUnpack == /\ phase = "run" /\ ~IsImg
@@ -436,7 +445,7 @@ StepImage == /\ phase = "run" /\ IsImg
              /\ IF pass = 0 THEN phase' = "done" /\ UNCHANGED <<pass, idx, img>>
                 ELSE IF idx > Len(Layers[pass])
                 THEN /\ pass' = pass - 1 /\ idx' = 1 /\ phase' = phase
-                     /\ img' = [img EXCEPT !.keys = Img0.keys]
+                     /\ img' = [img EXCEPT !.keys = Img0.keys, !.nondir = {}]
                 ELSE /\ LET ld == IF pass = 1 THEN "layer-0" ELSE "layer-1"
                             st0 == IF idx = 1 /\ img.st = "run" THEN [img EXCEPT !.fs = With(@, <<ld>>, Dir)] ELSE img
                         IN img' = ImgStep(st0, ld, Layers[pass][idx])
@@ -469,32 +478,35 @@ ImageContainment == IsImg => \A p \in DOMAIN img.fs : p = <<>> \/ p[1] \in {"lay
 \* when repairing exactly S changes the scenario's set of violations; the smallest such sets count (one
 \* deviation alone where that suffices; {lnk, pre} together for a link created in the sibling THROUGH a link)
 FixSet(S) == [x \in DevNames |-> DevOn[x] /\ x \notin S]
-BlameK(k) == UNION {S \in SUBSET ActiveDevs : Cardinality(S) = k /\ Viol(RunAll(FixSet(S), M, FS0, seq).fs) # Viol(asb.fs)}
+BlameK(k) == UNION {S \in SUBSET ActiveDevs : Cardinality(S) = k /\ Viol(RunAll(FixSet(S), M, StartRun, seq).fs) # Viol(asb.fs)}
 RECURSIVE BlameFrom(_)
 BlameFrom(k) == IF k > Cardinality(ActiveDevs) THEN {}
                 ELSE LET b == BlameK(k) IN IF b # {} THEN b ELSE BlameFrom(k + 1)
 DevsBlamed == IF IsImg \/ Viol(asb.fs) = NoViol THEN {} ELSE BlameFrom(1)
 Completeness == (Terminal /\ ~IsImg /\ Viol(asb.fs) # NoViol) => DevsBlamed # {}
 \* the lock-step machine and the functional form agree
-LockStep == (Terminal /\ ~IsImg) => asb = RunAll(DevOn, M, FS0, seq)
+LockStep == (Terminal /\ ~IsImg) => asb = RunAll(DevOn, M, StartRun, seq)
 NoDevsNoDifference == ActiveDevs = {} => asb = ideal
 
 -----------------------------------------------------------------------------
 (* ---- case emission (binding A) ---- *)
 Created(fs) == {[p |-> p, k |-> fs[p].k, c |-> fs[p].c, abs |-> fs[p].abs, segs |-> fs[p].segs] : p \in DOMAIN fs \ DOMAIN FS0}
 ImgNodes == {[p |-> p, k |-> img.fs[p].k, c |-> img.fs[p].c] : p \in DOMAIN img.fs \ {<<>>}}
-Case == [mode |-> mode, sib |-> sib, reqr |-> reqr, maxpass |-> maxpass, layers |-> Layers,
-         exp |-> Created(ideal.fs), exp_err |-> ideal.st = "abort",
-         asb |-> Created(asb.fs), asb_err |-> asb.st = "abort",
-         esc |-> EscapingLinks(asb.fs), devs |-> DevsBlamed,
-         loaded |-> img.st = "run", mid |-> IF img.st = "run" THEN ImgNodes ELSE {}]
-Emit == Terminal => PrintT(ToJson(Case))
+CaseWith(d) == [mode |-> mode, sib |-> sib, reqr |-> reqr, maxpass |-> maxpass, layers |-> Layers,
+                exp |-> Created(ideal.fs), exp_err |-> ideal.st = "abort",
+                asb |-> Created(asb.fs), asb_err |-> asb.st = "abort",
+                esc |-> EscapingLinks(asb.fs), devs |-> d,
+                loaded |-> img.st = "run", mid |-> IF img.st = "run" THEN ImgNodes ELSE {}]
+\* one case per terminal state; the blamed deviations are computed once and Completeness is checked on the way
+Emit == Terminal => LET d == DevsBlamed IN
+                    /\ (~IsImg /\ Viol(asb.fs) # NoViol) => d # {}
+                    /\ PrintT(ToJson(CaseWith(d)))
 
 \* sanity (each must be VIOLATED): the as-built transcription does break containment / leave an escaping link,
 \* and the image loader's filter is exercised
 SanityOutside == ~(Terminal /\ ~IsImg /\ OutsideChanged(asb.fs) # {})
 SanityEscaping == ~(Terminal /\ ~IsImg /\ EscapingLinks(asb.fs) # {})
-SanityAsBuiltContained == ~IsImg => OutsideChanged(asb.fs) = {}
+AsBuiltContained == ~IsImg => (OutsideChanged(asb.fs) = {} /\ (Terminal => EscapingLinks(asb.fs) = {}))
 
 -----------------------------------------------------------------------------
 (* ---- entry alphabets and scenario shapes of the families (chosen in the cfg by substitution) ---- *)
@@ -533,4 +545,35 @@ EntriesSeq == {SymE(R(<<"a">>), R(<<".">>)),
                SymE(R(<<"..", "s">>), A(<<"a">>)),
                Reg(R(<<"a", "x">>)),
                DirE(R(<<"b">>))}
+\* thorough: the same plus rejected targets, absolute spellings, long names, loops, big files, deeper links
+EntriesSeqBig == EntriesSeq \cup
+              {SymE(R(<<"a">>), A(<<"">>)),
+               SymE(R(<<"a">>), R(<<"b", "..">>)),
+               SymE(R(<<"a">>), R(<<"a">>)),
+               SymE(R(<<"b">>), R(<<"..">>)),
+               SymE(R(<<"b">>), R(<<"..", "out-evil">>)),
+               HardE(R(<<"b">>), R(<<"a", "..", "out-evil">>)),
+               Reg(R(<<"a">>)), Reg(R(<<"b">>)), DirE(R(<<"a">>)),
+               Reg(A(<<"b", "x">>)),
+               SymE(A(<<"b">>), R(<<"a", "..">>)),
+               Reg(R(<<"b", "lx">>)), Reg(R(<<"la", "lb", "lc">>)),
+               SymE(R(<<"b", "s">>), R(<<"x">>)),
+               SymE(R(<<"b", "y", "s">>), R(<<"..", "..">>)),
+               Reg(R(<<"..", "..", "x">>)),
+               BigReg(R(<<"b", "x">>))}
+\* four entries: links that climb one level each (a -> ., b -> a/.., c -> b/..) and things written through them
+EntriesSeq4 == {SymE(R(<<"a">>), R(<<".">>)),
+                SymE(R(<<"b">>), R(<<"a", "..">>)),
+                SymE(R(<<"b">>), R(<<"a", "..", "out-evil">>)),
+                SymE(R(<<"c">>), R(<<"b", "..">>)),
+                Reg(R(<<"b", "x">>)),
+                Reg(R(<<"c", "x", "y">>)),
+                SymE(R(<<"c", "s">>), A(<<"a">>)),
+                SymE(R(<<"b", "s">>), A(<<"a">>))}
+\* family "misc": required-target bookkeeping over several passes (requirer "links only"), MaxPass 1..3,
+\* sibling absent, files larger than MaxFileBytes
+EntriesMisc == {Reg(R(<<"a">>)), Reg(R(<<"b", "x">>)), BigReg(R(<<"c">>)), BigReg(R(<<"..", "out-evil", "x">>)),
+                SymE(R(<<"s">>), R(<<"a">>)), SymE(R(<<"s">>), A(<<"b", "x">>)), SymE(R(<<"b">>), R(<<".">>)),
+                HardE(R(<<"d">>), R(<<"b", "x">>)),
+                SymE(R(<<"..", "s">>), A(<<"a">>)), Reg(R(<<"..", "out-evil", "x">>)), Reg(R(<<"..", "x", "y">>))}
 =============================================================================
